@@ -170,11 +170,12 @@ impl<'a, 'tcx> Ex<'a, 'tcx> {
             }
             _ => {}
         }
+        if std::env::var("DFSCAN_DEBUG").is_ok() {
+            let _ = write!(o, ",\"ck\":{}", q(&format!("{:?}", c.const_).chars().take(160).collect::<String>()));
+        }
         match c.const_ {
-            mir::Const::Val(ConstValue::Scalar(s), _) => {
-                if let mir::interpret::Scalar::Int(i) = s {
-                    self.scalar(i, ty, &mut o);
-                }
+            mir::Const::Val(ConstValue::Scalar(mir::interpret::Scalar::Int(i)), _) => {
+                self.scalar(i, ty, &mut o);
             }
             mir::Const::Val(ConstValue::ZeroSized, _) => {
                 o.push_str(",\"zst\":true");
@@ -192,7 +193,40 @@ impl<'a, 'tcx> Ex<'a, 'tcx> {
                     }
                 }
             }
-            mir::Const::Val(..) => {}
+            mir::Const::Val(cv, _) => {
+                // small byte-array constants (format_args templates, b"..." literals)
+                let n: Option<usize> = match ty.kind() {
+                    ty::Ref(_, inner, _) => match inner.kind() {
+                        ty::Array(elem, len) if elem.is_integral() && elem.primitive_size(tcx).bytes() == 1 => {
+                            len.try_to_target_usize(tcx).map(|x| x as usize)
+                        }
+                        _ => None,
+                    },
+                    _ => None,
+                };
+                if let Some(n) = n {
+                    if n <= 512 {
+                        let (aid, off) = match cv {
+                            ConstValue::Indirect { alloc_id, offset } => (Some(alloc_id), offset.bytes() as usize),
+                            ConstValue::Scalar(mir::interpret::Scalar::Ptr(ptr, _)) => {
+                                let (prov, o) = ptr.into_raw_parts();
+                                (Some(prov.alloc_id()), o.bytes() as usize)
+                            }
+                            _ => (None, 0),
+                        };
+                        if let Some(aid) = aid {
+                            if let Some(mir::interpret::GlobalAlloc::Memory(m)) = tcx.try_get_global_alloc(aid) {
+                                let inner = m.inner();
+                                if off + n <= inner.len() {
+                                    let bytes = inner.inspect_with_uninit_and_ptr_outside_interpreter(off..off + n);
+                                    let hex: String = bytes.iter().map(|b| format!("{:02x}", b)).collect();
+                                    let _ = write!(o, ",\"bytes\":{}", q(&hex));
+                                }
+                            }
+                        }
+                    }
+                }
+            }
             mir::Const::Unevaluated(u, _) => {
                 let _ = write!(o, ",\"unev\":{}", q(&dps(tcx, u.def)));
                 if let Some(p) = u.promoted {
@@ -203,6 +237,19 @@ impl<'a, 'tcx> Ex<'a, 'tcx> {
             }
             mir::Const::Ty(_, ct) => {
                 if let Some(v) = ct.try_to_value() {
+                    if let ty::Ref(_, inner, _) = ty.kind() {
+                        if let ty::Array(elem, _) = inner.kind() {
+                            if elem.is_integral() {
+                                let v2 = ty::Value { ty: *inner, valtree: v.valtree };
+                                if let Some(b) = v2.try_to_raw_bytes(tcx) {
+                                    if b.len() <= 512 {
+                                        let hex: String = b.iter().map(|x| format!("{:02x}", x)).collect();
+                                        let _ = write!(o, ",\"bytes\":{}", q(&hex));
+                                    }
+                                }
+                            }
+                        }
+                    }
                     if matches!(ty.kind(), ty::Ref(_, t, _) if t.is_str()) {
                         if let Some(b) = v.try_to_raw_bytes(tcx) {
                             let s = String::from_utf8_lossy(b);
